@@ -104,6 +104,11 @@ func (fm *Frame) InputFile() *os.File {
 // ValueOutput returns a handle for writing value outputs.
 func (fm *Frame) ValueOutput() ValueOutput {
 	p := fm.ports[1]
+	if p.Chan == ClosedChan {
+		// An input port (for example from "1<file") can't take values, and
+		// sending on its closed channel would panic.
+		return valueOutput{nil, closedSendStop, &ErrPortDoesNotSupportValueOutput}
+	}
 	return valueOutput{p.Chan, p.sendStop, p.sendError}
 }
 
